@@ -1888,7 +1888,7 @@ class CodeGenerator(NodeVisitor):
 
             seen_refs.add(nsref.name)
             ref = frame.symbols.ref(nsref.name)
-            self.writeline(f"if not isinstance({ref}, Namespace):")
+            self.writeline(f"if not isinstance({ref}, Namespace):", node)
             self.indent()
             self.writeline(
                 "raise TemplateRuntimeError"
@@ -1918,7 +1918,7 @@ class CodeGenerator(NodeVisitor):
         # if ``a`` is a Namespace object. A block set has a single target.
         if isinstance(node.target, nodes.NSRef):
             ref = frame.symbols.ref(node.target.name)
-            self.writeline(f"if not isinstance({ref}, Namespace):")
+            self.writeline(f"if not isinstance({ref}, Namespace):", node)
             self.indent()
             self.writeline(
                 "raise TemplateRuntimeError"
